@@ -44,7 +44,7 @@ def one_exec(cfg):
         try:
             kw = {"state": state} if state is not None else {}
             odb = make_odb(cfg["kind"], w.p("cache"), **kw)
-            fill_cache(odb, ["A", "B"])
+            fill_cache(odb, ["A", "B"], extra=["x", "y", "e"])
             cache0 = {k: v[0] for k, v in store_snapshot(odb.path).items() if isinstance(k, str)}
             ws = w.p("ws")
             if cfg["other"] != "none":
@@ -53,8 +53,11 @@ def one_exec(cfg):
             odb.cache_types = types_of(cfg["l1"])
             checkout(ws, LFS, load_obj(odb, cfg["t0"]), odb, force=True, state=state)
             # user mutation (kind-preserving)
-            pa = os.path.join(ws, "a")
+            single = cfg["t0"] not in TREES
+            pa = ws if single else os.path.join(ws, "a")
             m = cfg["mut"]
+            if single and m == "add-untracked":
+                m = "none"
             if m == "delete-a":
                 os.unlink(pa)
             elif m in ("edit-a-uncached", "edit-a-cached"):
@@ -63,7 +66,7 @@ def one_exec(cfg):
             elif m == "add-untracked":
                 write_file(os.path.join(ws, "s", "untracked"), b"untracked")
             elif m == "retype-a":
-                data = CONTENTS[TREES[cfg["t0"]]["a"]]
+                data = CONTENTS[cfg["t0"] if single else TREES[cfg["t0"]]["a"]]
                 os.unlink(pa)
                 write_file(pa, data)  # same bytes, now an independent copy with a new inode
             # phase 2: forced checkout of the target with the configured link type
@@ -102,8 +105,8 @@ def one_exec(cfg):
                 viol.append(("relink-changed-content", ""))
             expect = "copy" if cfg["l2"] == "default" else cfg["l2"]
             kinds = {}
-            for rel, c in TREES[cfg["t1"]].items():
-                p = os.path.join(ws, *rel.split("/"))
+            for rel, c in (TREES[cfg["t1"]].items() if cfg["t1"] in TREES else [("", cfg["t1"])]):
+                p = os.path.join(ws, *rel.split("/")) if rel else ws
                 k = link_kind(p, odb, MD5[c], CONTENTS[c])
                 kinds[rel] = k
                 ok = k == expect or (expect == "hardlink" and CONTENTS[c] == b"" and k == "copy")
@@ -127,6 +130,9 @@ def one_exec(cfg):
                 rec = state.links.get(rel)
                 mtime, _size = get_mtime_and_size(ws, LFS)
                 ino = os.lstat(ws).st_ino
+                if single and os.path.islink(ws):
+                    # (a symlinked single file: the token describes the link target, as the library computes it)
+                    pass
                 if rec is None:
                     viol.append(("link-record-missing", rel))
                 elif tuple(rec) != (ino, mtime):
@@ -179,7 +185,7 @@ def replay(case):
 
 def run(ctx):
     ctx.rule = (
-        "E2: prior workspace = checkout of tree t0 in {A, B} with existing link type {copy, hardlink, symlink} "
+        "E2: prior workspace = checkout of tree t0 in {A, B} (or of a single file object x / y / empty) with existing link type {copy, hardlink, symlink} "
         "followed by a kind-preserving user mutation {none, delete, edit to uncached / cached content, untracked "
         "file, re-typed copy}; then target t1 in {A, B} under configured link type {copy, hardlink, symlink, "
         "default} x {LocalHashFileDB, HashFileDB} x state on/off x another workspace {none, hardlinked, symlinked} "
@@ -196,8 +202,7 @@ def run(ctx):
     ctx.require("relinked_to_hardlink", "relinked_to_symlink", "other_workspace_runs", "link_records_checked")
     cs = []
     for kind in ("local", "base"):
-        for t0 in ("A", "B"):
-            for t1 in ("A", "B"):
-                for l1 in L1S:
-                    cs.append({"base": {"kind": kind, "t0": t0, "t1": t1, "l1": l1}})
+        for t0, t1 in (("A", "A"), ("A", "B"), ("B", "A"), ("B", "B"), ("x", "x"), ("x", "y"), ("e", "x")):
+            for l1 in L1S:
+                cs.append({"base": {"kind": kind, "t0": t0, "t1": t1, "l1": l1}})
     ctx.run_cases("run_case", cs, chunksize=1, det=2)
